@@ -10,15 +10,16 @@ CONSTANTS MaxDecls,     \* program length bound
           Sample,       \* TRUE: one random candidate per declaration kind and step (-simulate)
           MinDecls,     \* a program is not finished before it has this many declarations
           BlockBudget,  \* a top-level block is closed after about this many declarations
+          CallsOnly,    \* TRUE: programs are call graphs only (applications A, B, C with endpoints e1, e2)
           WithPlans     \* TRUE: also print file-partition plans for the finished program (C04)
 
 VARIABLES st, prog, done
 gvars == <<st, prog, done>>
 
-Apps == IF Rich THEN {"A", "B", "NS :: C"} ELSE {"A", "B"}
+Apps == IF CallsOnly THEN {"A", "B", "C"} ELSE IF Rich THEN {"A", "B", "NS :: C"} ELSE {"A", "B"}
 TypesOf(app) == IF ~Rich THEN {"T"} ELSE IF app = "A" THEN {"T", "U"} ELSE IF app = "B" THEN {"W", "V"} ELSE {"X", "Y"}
 FieldNames == IF Rich THEN {"a", "b", "c", "d", "e", "x"} ELSE {"a"}
-EpNames == IF Rich THEN {"Ep", "Op", "Get Thing"} ELSE {"Ep"}
+EpNames == IF CallsOnly THEN {"e1", "e2"} ELSE IF Rich THEN {"Ep", "Op", "Get Thing"} ELSE {"Ep"}
 Texts == IF Rich THEN {"do it", "check stock", "validate the order", "done"} ELSE {"do it"}
 Preds == IF Rich THEN {"x > 5", "item in items", "stock is low", "a == b && c"} ELSE {"ready"}
 
@@ -71,6 +72,10 @@ Groups ==
        a \in Pick(Apps), l \in Pick(IF Rich THEN {"", "Long Name"} ELSE {""}), t \in Pick(TagSets), at \in Pick(AttrSets)}}
   ELSE LET fr == Top(st) IN
   CASE fr.k = "app" ->
+       IF CallsOnly THEN
+       { {[k |-> "ep", name |-> e, long |-> "", params |-> <<>>, tags |-> <<>>, attrs |-> <<>>, pos |-> NoPos] : e \in PickN(EpNames, 2)},
+         {[k |-> "end"]} }
+       ELSE
        { {[k |-> "type", name |-> t, kind |-> kd, tags |-> tg, attrs |-> <<>>, pos |-> NoPos] :
             t \in PickN(TypesOf(IF fr.app = "NS :: C" THEN "C" ELSE fr.app), 2), kd \in Pick({"tuple", "relation"}), tg \in Pick(TagSets)},
          {[k |-> "type", name |-> "E", kind |-> "enum", tags |-> <<>>, attrs |-> <<>>, pos |-> NoPos]},
@@ -108,7 +113,7 @@ Groups ==
     [] fr.k \in {"ep", "block"} ->
        { {[k |-> "stmt", kind |-> "action", text |-> t, tags |-> <<>>, attrs |-> <<>>, pos |-> NoPos] : t \in Texts}
          \cup {[k |-> "stmt", kind |-> "call", app |-> a, ep |-> e, text |-> "", tags |-> <<>>, attrs |-> <<>>, pos |-> NoPos] :
-                 a \in (Apps \ {fr.app}) \cup {"."}, e \in {"Ep", "Op"}}
+                 a \in (Apps \ {fr.app}) \cup {"."}, e \in (IF CallsOnly THEN EpNames ELSE {"Ep", "Op"})}
          \cup {[k |-> "stmt", kind |-> "ret", text |-> t, tags |-> <<>>, attrs |-> <<>>, pos |-> NoPos] :
                  t \in {"ok", "ok <: T", "error <: string"}},
          (IF Len(st.scope) < 5
@@ -162,7 +167,7 @@ Fresh(d) ==
                                 /\ (f[4] = d.name \/ f[5] = ToString(d.val))
     [] d.k = "member" -> <<"union", app, Top(st).type, TypeStr(d.sh)>> \notin st.model
     [] d.k = "anno" -> ~\E f \in st.model : f[1] = "app.attr" /\ f[2] = app /\ f[3] = d.name
-    [] d.k = "ep" -> (~Has("param", app, d.name))
+    [] d.k = "ep" -> (~Has("param", app, d.name)) /\ (CallsOnly => ~Has("ep", app, d.name))
                      /\ ((d.params # <<>> \/ d.tags # <<>>) => ~Has("ep", app, d.name))
     [] d.k = "event" -> ~\E i \in DOMAIN st.locs : st.locs[i].elem = <<"ep", app, d.name>>
     [] d.k = "sub" -> ~Has("sub", app, d.src \o " -> " \o d.name)
